@@ -10,8 +10,8 @@ PROP = {
             "direction is not axis-aligned; a frustum / box when the aspect is not 1 (extent not square) and a random probe is off the view axis in x and y; a matrix case "
             "when at least 10 entries and all point lanes are non-zero. distinct = distinct hash of (kind, scalar type, backend, input bits).",
     "builds": {
-        "quick": [B("stable"), B("nightly", 0.25, False)],
-        "thorough": [B("stable"), B("nightly", 0.5, False)],
+        "quick": [B("stable"), B("fma", 0.25), B("nightly", 0.25, False)],
+        "thorough": [B("stable"), B("fma", 0.5), B("nightly", 0.5, False)],
     },
     "volume": {"quick": 4},
     "technique": "property-based testing: proptest generators of cameras, frusta, boxes and matrices; oracles are the documented contracts stated independently in f64 "
